@@ -69,6 +69,8 @@ inductive Val
   | hctx (ctx : Nat) (block : Option Block)      -- a plush.HelperContext
   | giter (groups : List Val)                    -- *groupBy iterator
   | opaque (ty : String) (repr : Bytes)   -- any other Go value: type name and `fmt.Sprint`
+  | struct (ty : String) (fields : List (Bytes × Val))   -- a Go struct value of the harness family (no methods, no embedding)
+  | ptr (pty : String) (target : Option Val)             -- a Go pointer: `none` = typed nil pointer, `some v` = &v
 end
 
 instance : Inhabited Val := ⟨.nil⟩
@@ -97,5 +99,6 @@ def Val.tyName : Val → String
   | .ret _ => "plush.returnObject" | .cont _ => "plush.continueObject" | .brk _ => "plush.breakObject"
   | .ilist _ => "[]interface {}" | .closure .. => "func" | .hctx .. => "plush.HelperContext"
   | .giter _ => "*iterators.groupBy" | .opaque t _ => t
+  | .struct t _ => t | .ptr t _ => t
 
 end Plush
